@@ -674,6 +674,79 @@ func (c *Ctx) c05Backends() {
 		}
 	}
 	c.c05NoZeroValueState("R3")
+	c.c05ClnPreimageFields("R3")
+}
+
+// c05ClnPreimageFields: CLN names the preimage payment_preimage in the answer of pay and preimage in the entries of
+// listpays. A PAID quote must carry the preimage: the field the adapter reads it from has the JSON key of the very
+// call it decodes (a shared response type silently yields an empty preimage for one of the two).
+func (c *Ctx) c05ClnPreimageFields(rule string) {
+	R := c.R
+	want := map[string]string{"SendPayment": "payment_preimage", "PayPartialAmount": "payment_preimage", c.V.StatusMeth: "preimage"}
+	for _, t := range c.V.LNImpls {
+		if !strings.Contains(typeShort(c.P, t), "CLN") {
+			continue
+		}
+		for meth, key := range want {
+			f := c.P.MethodOf(t, meth)
+			if f == nil || f.Blocks == nil {
+				continue
+			}
+			fk := c.P.FuncKey(f)
+			// the struct fields whose value reaches the Preimage of a returned PaymentStatus
+			var tags []string
+			for _, g := range c.OpFuncs(f) {
+				for _, b := range g.Blocks {
+					for _, in := range b.Instrs {
+						var stt *types.Struct
+						idx := -1
+						var val ssa.Value
+						switch x := in.(type) {
+						case *ssa.FieldAddr:
+							if pt, ok := x.X.Type().Underlying().(*types.Pointer); ok {
+								stt, _ = pt.Elem().Underlying().(*types.Struct)
+							}
+							idx, val = x.Field, x
+						case *ssa.Field:
+							stt, _ = x.X.Type().Underlying().(*types.Struct)
+							idx, val = x.Field, x
+						}
+						if stt == nil || idx < 0 || !strings.Contains(strings.ToLower(stt.Field(idx).Name()), "preimage") {
+							continue
+						}
+						tag := reflectTagJSON(stt.Tag(idx))
+						if tag == "" {
+							continue // the adapter's own result type, not a decoded answer
+						}
+						_ = val
+						tags = append(tags, tag)
+					}
+				}
+			}
+			ok := len(tags) > 0
+			for _, tg := range tags {
+				if tg != key {
+					ok = false
+				}
+			}
+			R.Check(rule, fk, "preimage read from the answer's own JSON key", c.P.Pos(f.Pos()), ok,
+				"the preimage is decoded from the key CLN uses in this call's answer ("+key+")", "decoded preimage fields have JSON keys "+strings.Join(tags, ","))
+		}
+	}
+}
+
+func reflectTagJSON(tag string) string {
+	const k = `json:"`
+	i := strings.Index(tag, k)
+	if i < 0 {
+		return ""
+	}
+	rest := tag[i+len(k):]
+	j := strings.IndexAny(rest, `",`)
+	if j < 0 {
+		return ""
+	}
+	return rest[:j]
 }
 
 // c05NoZeroValueState: the zero value of lightning.State is Succeeded. A State variable declared without an
